@@ -538,6 +538,53 @@ func c05r5(c *Check) {
 	}
 	_ = pPar
 	c.Judge(okCopy && nCopy >= 1, "destination.Writer.Write appends at the fill position", c.AtFn(w), fmt.Sprintf("%d copies of caller data into the buffer, all copy(b.buf[b.n:], p)", nCopy), "data is copied into the buffer at a position other than the current fill level: buffered bytes are overwritten or gaps are sent")
+	// the fill level is advanced right after the copy, before the buffer is flushed or the call returns
+	same := inlineSameRecv(w)
+	ocfg := &PathCfg{
+		BackEdgeMax: 1,
+		Inline:      func(g *ssa.Function) bool { return same(g) && g.Name() != "flush" && g.Name() != "Flush" },
+		HigherOrder: map[string]int{"(github.com/Dieterbe/go-metrics.Timer).Time": 0},
+		Classify: func(in ssa.Instruction) []string {
+			if cc, ok := isBuiltinCall(in, "copy"); ok {
+				if sl, ok := cc.Args[0].(*ssa.Slice); ok && isFieldLoad(sl.X, bufF) {
+					if ssl, ok := cc.Args[1].(*ssa.Slice); !ok || !isFieldLoad(ssl.X, bufF) {
+						return []string{"copy"}
+					}
+				}
+			}
+			if st, ok := in.(*ssa.Store); ok {
+				if fa, ok := st.Addr.(*ssa.FieldAddr); ok && fieldOfAddr(fa) == nF {
+					return []string{"n="}
+				}
+			}
+			if cc := callCommon(in); cc != nil {
+				n := calleeName(cc)
+				if strings.HasSuffix(n, "destination.Writer).flush") || strings.HasSuffix(n, "destination.Writer).Flush") {
+					return []string{"flush"}
+				}
+			}
+			return nil
+		},
+	}
+	opaths, otrunc := EnumPaths(w, nil, ocfg)
+	badOrder, nCopyPaths := "", 0
+	for i := range opaths {
+		pa := &opaths[i]
+		for j, e := range pa.Events {
+			if e.Class != "copy" {
+				continue
+			}
+			nCopyPaths++
+			if j+1 >= len(pa.Events) || pa.Events[j+1].Class != "n=" {
+				badOrder = "after copying into the buffer the fill level is not advanced before the next flush / return: " + pa.String()
+			}
+		}
+	}
+	if otrunc || nCopyPaths == 0 {
+		c.Undecided("destination.Writer.Write advances the fill level right after the copy", c.AtFn(w), "no path with a copy enumerated")
+	} else {
+		c.Judge(badOrder == "", "destination.Writer.Write advances the fill level right after the copy", c.AtFn(w), fmt.Sprintf("%d copies on the enumerated paths, each followed at once by the update of n", nCopyPaths), badOrder+" — the flush sends the buffer without the bytes just copied, and counts stale bytes as pending afterwards: lines arrive torn")
+	}
 	// flush writes buf[0:n]
 	fl := c.P.Func("destination", "*Writer", "flush")
 	okFl := false
